@@ -22,12 +22,13 @@ def _t(mod, *names):
     return [(n, "FlooVerif.Props." + mod) for n in names]
 
 THEOREMS = {
-    "C01": _t("HwTieShape", "FlooVerif.HwTie.rtl_shape") + _t("HwTieWhole", "FlooVerif.HwTie.selectAll_pinned", "FlooVerif.HwTie.routerAll_pinned", "FlooVerif.HwTie.compAll_pinned") + _t("HwTiePorts", "FlooVerif.HwTie.chimneyIds_pinned") + _t("C01", "FlooVerif.C01.holds_iff_spec", "FlooVerif.C01.matching_stable") +
+    "C01": _t("C08Slot", "FlooVerif.C08S.slot_2d", "FlooVerif.C08S.slot_1d") + _t("HwTieShape", "FlooVerif.HwTie.rtl_shape") + _t("HwTieWhole", "FlooVerif.HwTie.selectAll_pinned", "FlooVerif.HwTie.routerAll_pinned", "FlooVerif.HwTie.compAll_pinned") + _t("HwTiePorts", "FlooVerif.HwTie.chimneyIds_pinned") + _t("C01", "FlooVerif.C01.holds_iff_spec", "FlooVerif.C01.matching_stable") +
            _t("C01U", "FlooVerif.C01U.sam_decodes_owner", "FlooVerif.C01U.overlap_rejected", "FlooVerif.C01U.rule_origin") +
            [("FlooVerif.checkNoOverlap_iff", "FlooVerif.Lemmas.RouteMapLemmas")],
     "C02": _t("HwTieShape", "FlooVerif.HwTie.rtl_shape") + _t("HwTieWhole", "FlooVerif.HwTie.selectAll_pinned", "FlooVerif.HwTie.routerAll_pinned") + _t("C02", "FlooVerif.C02.arrives_of_potential", "FlooVerif.C02.trace_nodup", "FlooVerif.C02.walk_fuel_mono") +
-           _t("C02U", "FlooVerif.C02U.tables_deliver", "FlooVerif.C02U.next_is_closer", "FlooVerif.C02U.remaining_decreases"),
-    "C03": _t("HwTieWhole", "FlooVerif.HwTie.selectAll_pinned", "FlooVerif.HwTie.routerAll_pinned", "FlooVerif.HwTie.compAll_pinned") + _t("HwTiePorts", "FlooVerif.HwTie.chimneyIds_pinned") + _t("HwTieSrc", "FlooVerif.HwTie.src_agrees", "FlooVerif.HwTie.src_is_srcPop") + _t("HwTieShape", "FlooVerif.HwTie.rtl_shape") + _t("C03", "FlooVerif.C03.pack_unpack", "FlooVerif.C03.pack_lt", "FlooVerif.C03.port_fits"),
+           _t("C02U", "FlooVerif.C02U.tables_deliver", "FlooVerif.C02U.next_is_closer", "FlooVerif.C02U.remaining_decreases") +
+           _t("C02Model", "FlooVerif.C02M.model_tables_deliver", "FlooVerif.C02M.model_route_exists", "FlooVerif.C02M.createNetwork_closed", "FlooVerif.C02M.model_oracle_contract"),
+    "C03": _t("C03Model", "FlooVerif.C03M.model_route_unpacks", "FlooVerif.C03M.routeLit_value", "FlooVerif.C03M.routePorts_spec", "FlooVerif.C03M.hopPort_spec", "FlooVerif.C03M.routePorts_fit", "FlooVerif.C03M.genRoutes_bits_cover") + _t("HwTieWhole", "FlooVerif.HwTie.selectAll_pinned", "FlooVerif.HwTie.routerAll_pinned", "FlooVerif.HwTie.compAll_pinned") + _t("HwTiePorts", "FlooVerif.HwTie.chimneyIds_pinned") + _t("HwTieSrc", "FlooVerif.HwTie.src_agrees", "FlooVerif.HwTie.src_is_srcPop") + _t("HwTieShape", "FlooVerif.HwTie.rtl_shape") + _t("C03", "FlooVerif.C03.pack_unpack", "FlooVerif.C03.pack_lt", "FlooVerif.C03.port_fits"),
     "C04": _t("HwTieWhole", "FlooVerif.HwTie.selectAll_pinned", "FlooVerif.HwTie.routerAll_pinned") + _t("HwTie", "FlooVerif.HwTie.xy_agrees") + _t("HwTieMask", "FlooVerif.HwTie.mask_agrees") + _t("HwTieShape", "FlooVerif.HwTie.rtl_shape") + _t("C04", "FlooVerif.C04.lockstep", "FlooVerif.C04.step_closer", "FlooVerif.C04.no_y_to_x_turn",
               "FlooVerif.C04.column_decision", "FlooVerif.C04.allowed_y_continuation", "FlooVerif.C04.dor_reaches") +
            _t("C07XY", "FlooVerif.C07U.xy_ids_fit") +
@@ -45,7 +46,7 @@ THEOREMS = {
            _t("C04U", "FlooVerif.C04U.array_is_grid"),
     "C07": _t("C07", "FlooVerif.C07U.id_eq_uid", "FlooVerif.C07U.idOf_eq", "FlooVerif.C07U.uids_dense", "FlooVerif.C07U.id_fits") +
            _t("C07XY", "FlooVerif.C07U.xy_ids_fit", "FlooVerif.C07U.coord_fits", "FlooVerif.C07U.listMin_le", "FlooVerif.C07U.listMax_ge"),
-    "C08": _t("HwTiePorts", "FlooVerif.HwTie.setPorts_pinned") + _t("C08", "FlooVerif.C08U.portElem_depth", "FlooVerif.C08U.kept_length", "FlooVerif.C08U.portElem_single"),
+    "C08": _t("HwTiePorts", "FlooVerif.HwTie.setPorts_pinned") + _t("C08Slot", "FlooVerif.C08S.ni_slot", "FlooVerif.C08S.slot_2d", "FlooVerif.C08S.slot_1d", "FlooVerif.C08S.slot_single", "FlooVerif.C08S.reindex_windows", "FlooVerif.C08S.compileNi_spec") + _t("C08", "FlooVerif.C08U.portElem_depth", "FlooVerif.C08U.kept_length", "FlooVerif.C08U.portElem_single"),
     "C10": _t("C10", "FlooVerif.C10.no_output_on_error", "FlooVerif.C10.rejected_of_gen_error", "FlooVerif.C10.validate_ok",
               "FlooVerif.C10.reject_invalid_range", "FlooVerif.C10.reject_empty_range", "FlooVerif.C10.reject_contradictory_range",
               "FlooVerif.C10.reject_sbr_without_range", "FlooVerif.C10.reject_tableless_id_without_offset",
